@@ -174,7 +174,8 @@ class CSSMediaRule(cssrule.CSSRuleRules):
                     rule = cssutils.css.CSSStyleRule(
                         parentRule=self, parentStyleSheet=self.parentStyleSheet
                     )
-                    rule.cssText = self._tokensupto2(tokenizer, token)
+                    # namespaces given with the text are used if not attached
+                    rule.cssText = (self._tokensupto2(tokenizer, token), namespaces)
                     if rule.wellformed:
                         self.insertRule(rule)
                     return expected
@@ -214,6 +215,8 @@ class CSSMediaRule(cssrule.CSSRuleRules):
                         rule = factories[atval](
                             parentRule=self, parentStyleSheet=self.parentStyleSheet
                         )
+                        if '@media' == atval:
+                            tokens = (tokens, namespaces)
                         rule.cssText = tokens
                         if rule.wellformed:
                             self.insertRule(rule)
